@@ -21,7 +21,7 @@ CONSTANTS
   MaxReorg = 0
   MaxCrash = 0
   ExportOn = TRUE
-  SampleMod = 200
+  SampleMod = 50
 INIT Init
 NEXT Next
 VIEW view
